@@ -115,23 +115,9 @@ def run(ctx):
     nsch = 80 if ctx.quick() else 1500
     schemas = [schemagen.gen_schema(r) for _ in range(nsch)]
     # struct layouts and field ids from the Lean model (the theorems of C07 are about these functions)
-    layouts = []
-    mlines = []
-    for S in schemas:
-        known = {}
-        for st in S["structs"]:
-            ms = []
-            for f in st["fields"]:
-                n = f.get("len", 1)
-                if f.get("struct"): sz, al = known[f["type"]][:2]
-                elif f.get("enum"):
-                    e = [e for e in S["enums"] if e["name"] == f["type"]][0]; sz = al = schemagen.SCALARS[e["type"]]
-                else: sz = al = schemagen.SCALARS[f["type"]]
-                ms.append((sz * n, al))
-            rc, out, _ = run_lines(FMODEL, ["layout 0 " + ",".join("%d:%d" % m for m in ms)])
-            size, al, offs = out[0].split(" ")
-            known[st["name"]] = (int(size), int(al), [int(x) for x in offs.split(",")])
-        layouts.append(known)
+    import schemamodel
+    # (a force_align >= the natural alignment is chosen for some structs and written into the schema before it is rendered)
+    layouts = [schemamodel.layouts(S, r) for S in schemas]
     idl = [(si, t, "ids " + (",".join("1" if f["kind"] in ("union", "vec_union") else "0" for f in t["fields"]) or "_")) for si, S in enumerate(schemas) for t in S["tables"]]
     rc, idout, _ = run_parallel(FMODEL, [x[2] for x in idl], 8)
     ids = {}
